@@ -40,7 +40,7 @@ def explore(run, scenarios, random, pct, dfs, preempt, label):
 
 def sc_key(name, **kw):
     d = dict(name=name, policy="lru", capacity=1, shared=True, sessCache=False, sessPolicy="lru", sessCap=1, sessExpiry=0, R=1000, workers=2, parts=2, ops=1,
-             ticks=0, revoke=False, samePart=False, churn=False, staleSK=False)
+             ticks=0, revoke=False, samePart=False, churn=False, staleSK=False, noIKCache=False)
     d.update(kw)
     return d
 
@@ -58,6 +58,8 @@ def check_C08(run):
     scen.append(sc_key("shared-lru-cap1-sesscache", sessCache=True, sessCap=1, parts=2))
     scen.append(sc_key("sesscache-cap1-holders+churn", sessCache=True, sessPolicy="lru", sessCap=1, parts=2, workers=3, ops=1, policy="simple", shared=False, churn=True))
     scen.append(sc_key("shared-simple-revoke-reload", policy="simple", shared=True, parts=1, workers=2, ops=3, revoke=True, R=0, ticks=2, samePart=True))
+    # the shared cache belongs to the factory whatever CacheIntermediateKeys says: sessions come and go while others use its keys
+    scen.append(sc_key("shared-simple-noikcache-sessions-close", policy="simple", shared=True, noIKCache=True, parts=2, workers=3, ops=2, samePart=True))
     if not q:
         scen.append(sc_key("shared-lru-cap1-3workers", workers=3, parts=3))
         scen.append(sc_key("shared-tinylfu-cap100-async", policy="tinylfu", capacity=100, parts=3, workers=3, ops=2))
